@@ -496,6 +496,9 @@ func execC19(t *testing.T, w *core.World, p *run.Plan, r *run.Result) {
 			if burst < 1 {
 				burst = 1
 			}
+			if p.Free && burst < 3 {
+				burst = 3 // free-running mode exists for what concurrent requests do to shared state
+			}
 			var wg sync.WaitGroup
 			defer func() { _ = &wg }()
 			for b := 0; b < burst; b++ {
